@@ -459,6 +459,98 @@ def t_background(ctx):
 
 
 # ---------------------------------------------------------------------------
+# auxiliary maps are loaded as they are; peaks and troughs of the curvature map use the same neighbourhood
+# ---------------------------------------------------------------------------
+
+def t_aux_image(ctx):
+    reset_uids()
+    shape = (Sym(z3.Int('R')), Sym(z3.Int('C')))
+    ctx.assume(And(shape[0] >= 1, shape[1] >= 1))
+    aux = SArr.fresh('aux_file_data', shape, with_nan=True)
+    same_shape = True
+    image = Obj('image', shape=shape)
+    from pyvc.engine import ExcClass
+    g = {'load_image_band': Model(lambda c, f, **kw: (aux, Opaque('header')), 'load_image_band'), 'AegeanError': ExcClass('AegeanError'),
+         'np': lib.std_np(abs=Model(m_abs), nan_to_num=Model(lambda c, v, **k: Opaque('nan_to_num')), fabs=Model(m_abs))}
+    from pyvc.engine import run_function
+    out = run_function(ctx, FILE, 'SourceFinder._load_aux_image', [Obj('self', log=Namespace('log')), image, 'bkg.fits'], globals_=g)
+    if not same_shape:
+        ctx.oblige("post", "aux_image.shape_mismatch_is_an_error", out.kind == 'raise')
+        return
+    r_, c_ = Sym(z3.Int('r')), Sym(z3.Int('c'))
+    ctx.assume(And(r_ >= 0, r_ < shape[0], c_ >= 0, c_ < shape[1]))
+    ok = out.kind == 'return' and isinstance(out.value, SArr)
+    ctx.oblige("post", "aux_image.background_and_noise_files_are_used_as_they_are",
+               And(out.value.at((r_, c_)) == aux.at((r_, c_)), Sym(Sym.lift(out.value.isnan((r_, c_))) == Sym.lift(aux.isnan((r_, c_)))))
+               if ok else False)
+
+
+def t_curvature(ctx):
+    """_fit_island: local maxima and local minima are found with the same neighbourhood on the same pixels, and marked -1 / +1"""
+    qn = 'SourceFinder._fit_island'
+    fn = find_function(FILE, qn)
+    a = next((k for k, st in enumerate(fn.body) if isinstance(st, ast.Assign) and unparse(st.targets[0]) == 'icurve'), None)
+    b = next((k for k, st in enumerate(fn.body) if isinstance(st, ast.Assign) and unparse(st.targets[0]) == 'icurve' and
+              'icurve[' in unparse(st.value)), None)
+    if a is None or b is None or b <= a:
+        raise Undecided("_fit_island: curvature region not found")
+    calls = []
+
+    class Arr(PyObj):
+        def __init__(s, tag):
+            s.tag = tag
+
+        def getitem_(s, c, k):
+            return Arr((s.tag, 'slice', unparse_key(k)))
+
+        def setitem_(s, c, k, v):
+            calls.append(('set', s.tag, k, v))
+
+        def getattr_(s, c, name):
+            if name == 'shape':
+                return (Sym(z3.Int('ir')), Sym(z3.Int('ic')))
+            raise Undecided("array." + name)
+
+        def binop_(s, c, op, other, swapped):
+            if op == 'Eq' and isinstance(other, Arr):
+                return Arr(('eq', s.tag, other.tag))
+            return NotImplemented
+
+    def unparse_key(k):
+        return tuple((str(Sym.lift(x.start)) if x.start is not None else None, str(Sym.lift(x.stop)) if x.stop is not None else None)
+                     if isinstance(x, slice) else str(x) for x in (k if isinstance(k, tuple) else (k,)))
+
+    def filt(kind):
+        def f(c, arr, size=None, footprint=None, **kw):
+            calls.append((kind, arr.tag if isinstance(arr, Arr) else None, size, footprint, tuple(sorted(kw))))
+            return Arr((kind, arr.tag if isinstance(arr, Arr) else None))
+        return Model(f, kind)
+    img = Arr('img')
+    gd = Obj('gd', img=img)
+    xmin, xmax, ymin, ymax = [Sym(z3.Int(n)) for n in ('xmin', 'xmax', 'ymin', 'ymax')]
+    g = {'np': lib.std_np(zeros=Model(lambda c, shape=None, dtype=None, **k: Arr('icurve')), where=Model(lambda c, x: ('where', x.tag if isinstance(x, Arr) else None)),
+                          int8=Opaque('int8')),
+         'maximum_filter': filt('maximum_filter'), 'minimum_filter': filt('minimum_filter')}
+    env = {'self': Obj('self', global_data=gd, log=Namespace('log')), 'global_data': gd, 'xmin': xmin, 'xmax': xmax, 'ymin': ymin, 'ymax': ymax,
+           'buffx': [Sym(z3.Int('bx0')), Sym(z3.Int('bx1'))], 'buffy': [Sym(z3.Int('by0')), Sym(z3.Int('by1'))]}
+    out = run_stmts(ctx, FILE, qn, fn.body[a:b], env, globals_=g, region_desc="curvature map of the island")
+    if out.kind != 'fallthrough':
+        ctx.oblige("safe", "curvature.no_exception", False)
+        return
+    mx = [c for c in calls if c[0] == 'maximum_filter']
+    mn = [c for c in calls if c[0] == 'minimum_filter']
+    ok = len(mx) == 1 and len(mn) == 1
+    ctx.oblige("post", "curvature.one_maximum_and_one_minimum_filter", ok)
+    if ok:
+        ctx.oblige("post", "curvature.peaks_and_troughs_use_the_same_pixels_and_the_same_neighbourhood", mx[0][1:] == mn[0][1:])
+    sets = [c for c in calls if c[0] == 'set']
+    ok2 = len(sets) == 2 and sets[0][3] == -1 and sets[1][3] == 1 and \
+        sets[0][2] == ('where', ('eq', ('maximum_filter', mx[0][1]) if ok else None, mx[0][1] if ok else None)) and \
+        sets[1][2] == ('where', ('eq', ('minimum_filter', mn[0][1]) if ok else None, mn[0][1] if ok else None))
+    ctx.oblige("post", "curvature.local_maxima_marked_minus_one_local_minima_plus_one_on_the_pixels_they_were_found_on", ok2)
+
+
+# ---------------------------------------------------------------------------
 # components (lemma over the C03 contract of result_to_components)
 # ---------------------------------------------------------------------------
 
@@ -485,6 +577,8 @@ def verify(S):
                ("source_finder.SourceFinder.estimate_lmfit_parinfo[summit_params]", t_summit_params),
                ("source_finder.SourceFinder.estimate_lmfit_parinfo[summit_order]", t_sort_key),
                ("source_finder.SourceFinder.load_globals[background]", t_background),
+               ("source_finder.SourceFinder._load_aux_image", t_aux_image),
+               ("source_finder.SourceFinder._fit_island[curvature]", t_curvature),
                ("source_finder.SourceFinder.find_sources_in_image[island_loop]", _island_loop),
                ("source_finder.SourceFinder.result_to_components[mirror]", t_components_lemma)]
     for name, fn in targets:
